@@ -389,10 +389,64 @@ def events_from_wire(tier, seed):
                 new[k] = (attrs[k][0], ctlv)
                 names.append(f'{attrs[k][0]}: {cname}')
             one(2, W.update_body(wd, b''.join(t for _, t in new), nlri), None, 'generated UPDATE with malformed attributes (' + '; '.join(names) + ')')
+    # every SUBSET of the common attributes (an attribute set in which only one member -- or none -- renders is where a
+    # hand-assembled member list gets a stray separator), announced, withdrawn, or both in one UPDATE
+    import itertools
+
+    parts = [
+        ('ORIGIN', W.origin(0)),
+        ('empty AS_PATH', W.as_path([], True)),
+        ('NEXT_HOP', W.next_hop('192.0.2.1')),
+        ('MED', W.unknown(4, (5).to_bytes(4, 'big'), transitive=False, optional=True)),
+        ('LOCAL_PREF', bytes([0x40, 5, 4, 0, 0, 0, 100])),
+        ('COMMUNITY', bytes([0xC0, 8, 4, 0xFD, 0xE8, 0, 1])),
+    ]
+    for r in range(0, len(parts) + 1):
+        for combo in itertools.combinations(parts, r):
+            blob = b''.join(t for _, t in combo)
+            names = ', '.join(n for n, _ in combo) or 'no attribute'
+            for wd, nl, shape in ((b'', bytes([24, 10, 0, 0]), 'announce'), (bytes([24, 10, 0, 1]), b'', 'withdraw'), (bytes([24, 10, 0, 1]), bytes([24, 10, 0, 0]), 'announce and withdraw')):
+                one(2, W.update_body(wd, blob, nl), None, f'UPDATE ({shape}) with exactly [{names}]')
+    # attributes whose value is a list of TLVs rendered as MEMBERS of one object: each known TLV once, twice, next to
+    # another, and an unknown code, at both nesting levels (a peer may repeat any of them); and the attributes which
+    # come in a 2-byte / 4-byte pair under one key
+    import struct as _st
+    import socket as _so
+
+    def tlv(code, value):
+        return bytes([code]) + _st.pack('!H', len(value)) + value
+
+    base = W.origin(0) + W.as_path([], True) + W.next_hop('10.0.0.1')
+    sid = _so.inet_pton(_so.AF_INET6, '2001:db8::1')
+    structure = tlv(1, bytes([32, 16, 16, 0, 16, 48]))
+    label_index = tlv(1, b'\x00\x00\x00' + _st.pack('!I', 5))
+    srgb = tlv(3, b'\x00\x00' + (16000).to_bytes(3, 'big') + (8000).to_bytes(3, 'big'))
+
+    def sid_info(subsub):
+        return tlv(1, b'\x00' + sid + b'\x00' + _st.pack('!H', 0x13) + b'\x00' + subsub)
+
+    subsubs = {'none': b'', 'structure': structure, 'structure twice': structure * 2, 'unknown': tlv(9, b'ab'), 'unknown twice': tlv(9, b'ab') + tlv(9, b'cd'), 'structure and unknown': structure + tlv(9, b'ab')}
+    tops = {'label-index': label_index, 'srgb': srgb, 'unknown 9': tlv(9, b'ab'), 'unknown 9 again': tlv(9, b'cd')}
+    for k, v in subsubs.items():
+        tops[f'l3-service ({k})'] = tlv(5, b'\x00' + sid_info(v))
+        tops[f'l2-service ({k})'] = tlv(6, b'\x00' + sid_info(v))
+    names = list(tops)
+    for a in names:
+        one(2, W.update_body(b'', base + W.unknown(40, tops[a]), bytes([24, 10, 0, 0])), None, f'Prefix-SID with [{a}]')
+        one(2, W.update_body(b'', base + W.unknown(40, tops[a] * 2), bytes([24, 10, 0, 0])), None, f'Prefix-SID with [{a}] twice')
+    for a, b in itertools.combinations(names[:8], 2):
+        one(2, W.update_body(b'', base + W.unknown(40, tops[a] + tops[b]), bytes([24, 10, 0, 0])), None, f'Prefix-SID with [{a}] and [{b}]')
+    for asn2, asn4, what in ((23456, 70000, 'AS_TRANS + 4-byte'), (65001, 70000, 'real 2-byte AS + 4-byte'), (23456, None, 'AS_TRANS alone'), (None, 70000, 'AS4_AGGREGATOR alone')):
+        blob = base
+        if asn2 is not None:
+            blob += W.unknown(7, _st.pack('!I', asn2) + bytes([1, 1, 1, 1]))
+        if asn4 is not None:
+            blob += W.unknown(18, _st.pack('!I', asn4) + bytes([1, 1, 1, 1]))
+        one(2, W.update_body(b'', blob, bytes([24, 10, 0, 0])), None, f'AGGREGATOR / AS4_AGGREGATOR: {what}')
     return {
         'evaluations': evals,
         'distinct_nontrivial': len(distinct),
-        'bound': f'every raw message recorded under /repo/qa (encoding, api, decoding: {len(corpus())} distinct, all families the project tests) + the same with printable runs replaced by hostile bytes + generated OPEN (hostname, domain, software version), NOTIFICATION (shutdown communication, data), OPERATIONAL advisory and BGP-LS node name / opaque with hostile bytes + generated UPDATEs with one or two malformed attributes; x 4 encoders; {undec} inputs did not decode and are not counted as covered; decoded per message type {decoded_by_type}',
+        'bound': f'Prefix-SID TLVs (label-index, SRGB, SRv6 L3 / L2 service with 6 sub-sub-TLV shapes, unknown) once, twice and in pairs; AGGREGATOR / AS4_AGGREGATOR pairs; every subset of 6 common attributes x announce / withdraw / both; every raw message recorded under /repo/qa (encoding, api, decoding: {len(corpus())} distinct, all families the project tests) + the same with printable runs replaced by hostile bytes + generated OPEN (hostname, domain, software version), NOTIFICATION (shutdown communication, data), OPERATIONAL advisory and BGP-LS node name / opaque with hostile bytes + generated UPDATEs with one or two malformed attributes; x 4 encoders; {undec} inputs did not decode and are not counted as covered; decoded per message type {decoded_by_type}',
         'rule': 'one case = one message body; distinct by (type, body)',
         'samples': samples,
         'failures': fails,
